@@ -144,3 +144,35 @@ Proof.
   split; [apply completeb_spec; vm_compute; reflexivity|].
   split; vm_compute; reflexivity.
 Qed.
+
+(* END TO END (Proofs/E2E*.v).  `hview W e json h` is what a renderer sees after
+   the history h of public-API calls (Model/Table.v: building calls in any
+   interleaving plus column property settings) over ARBITRARY items
+   (Model/Cell.v); `twf_hist h`: the building calls form a well-formed history.
+   hist_align h i is the value of the LAST alignment set through a handle of
+   column i (0 = the all-columns default) - a handle exists only for 0 .. the
+   column count at the time of the call - or None (Spec/TableHist.v). *)
+From Tab Require Import Model.Cell Model.Table Spec.TableHist Spec.CellText Proofs.E2EProofs Proofs.E2EText.
+
+(* For every table a history can build, whatever the items: Render() is the
+   flattened layout (whose slots c04_slots / c04_unmodified / c04_blank
+   describe) ... *)
+Theorem c04_history_refines : forall W e json d (h : list top),
+  twf_hist h -> (1 <= hist_ncols h)%nat -> dec_ok d ->
+  text_render W d (hview W e json h) = Ok (concat (map flatten (layout W d (hview W e json h)))).
+Proof. exact text_history_refines. Qed.
+Print Assumptions c04_history_refines.
+
+(* ... in which column i (0-based) is aligned by the column's own latest
+   setting, else by the latest all-columns default set on column 0, else left -
+   whenever in the history those settings were made, before or after the
+   columns' cells arrived, and however often they were changed or unset. *)
+Theorem c04_history_alignment : forall W e json (h : list top) i,
+  twf_hist h -> (i < hist_ncols h)%nat ->
+  eff_align (hview W e json h) i
+  = match hist_align h (S i) with
+    | Some a => a
+    | None => match hist_align h 0%nat with Some a => a | None => ALeft end
+    end.
+Proof. exact text_history_alignment. Qed.
+Print Assumptions c04_history_alignment.
